@@ -833,6 +833,10 @@ pub fn drive(tier: &str) -> i32 {
             .map(|(_, s)| vcore::slots::program(&s))
             .collect(),
     ));
+    groups.push((
+        "statement templates inside 8 containers (SUB / FUNCTION / STATIC SUB bodies, single-line IF, IF in FOR, CASE, ELSE in WHILE, SUB with shared declarations)".into(),
+        vcore::slots::instantiate_in_containers(if quick { &[] } else { &[0] }),
+    ));
     groups.extend(super::genpool::generated_groups(quick));
     let mut seen: HashSet<u64> = HashSet::new();
     let mut reports = vec![];
